@@ -417,9 +417,9 @@ class SimS3:
             rec['attempt'] = att
             rec['range_start'] = start
             rec['range_len'] = len(data)
-            sf = [f for f in self.faults.peek('stream', key=kwargs['Key'])
-                  if f.get('attempt', 0) == att
-                  and f.get('range', rng) == rng and not f['_fired']]
+            sf = [f for f in self.faults.peek('stream', key=kwargs['Key'],
+                                              range=rng, attempt=att)
+                  if not f['_fired']]
             sf.sort(key=lambda f: f['at'])
             body = SimStreamingBody(self, rec, data, sf,
                                     self.knobs.get('short_reads', False))
